@@ -11,6 +11,7 @@ import os, sys, json, re, time, traceback
 
 HERE = os.path.dirname(os.path.abspath(__file__))
 ROOT = os.path.dirname(HERE)
+REPO_IS_DEFAULT = os.environ.get("VERIF_REPO", "/repo") == "/repo"
 sys.path.insert(0, HERE)
 from astload import Ast, AstError, SRC
 import tr_cxx
@@ -58,7 +59,7 @@ def check_operators():
 VR = {"vr4": ("VRegion4", "V4", 4, "__m256i"), "vr8": ("VRegion8", "V8", 8, "__m512i")}
 
 
-def lean_dispatch_entry(info, ns, vregs=None):
+def lean_dispatch_entry(info, ns, vregs=None, ext=False):
     """one match arm for Driver/GenDispatch.lean, or None when the signature is not dispatchable.
     vregs: number of registers a vector-region parameter (`__m256i *`, `Element_avx &`) designates in this module
     (3 for the planar cubic-extension operands): passed as vregs * lanes words, register 0 first."""
@@ -103,12 +104,20 @@ def lean_dispatch_entry(info, ns, vregs=None):
             pats.append(".r x%d" % k)
             args.append("(Region.ofList x%d)" % k)
             k += 1
+        elif c == "int" and ext:
+            pats.append(".w x%d" % k)
+            args.append("(BitVec.toInt x%d)" % k)      # an `int` argument: 64-bit two's complement on the wire
+            k += 1
         else:
             return None
+    if getattr(info, "partial", False):
+        args = ["Driver.genFuel"] + args
     call = "%s.%s %s" % (ns, info.lean_name, " ".join(args)) if args else "%s.%s" % (ns, info.lean_name)
     outs = []
     nouts = len(info.outs)
     if nouts == 0:
+        return None
+    if getattr(info, "partial", False) and (len(pats) > 32 or vregs):
         return None
 
     def proj(i):
@@ -170,6 +179,11 @@ def lean_dispatch_entry(info, ns, vregs=None):
         body = re.sub(r"\(Region\.ofList x(\d+)\)", lambda mm: "(Region.ofList (Driver.rD a %s))" % mm.group(1), body)
         body = re.sub(r"(?<![A-Za-z0-9_.])x(\d+)\b", lambda mm: "(Driver.wD a %s)" % mm.group(1), body)
         return ("long", '  | "%s" => if !Driver.kindsOk a "%s" then none else %s' % (info.lean_name, kinds, body))
+    if getattr(info, "partial", False):
+        # partial function (fuel / Option): `none` = the process was ended by the code (the fuel of the driver is never
+        # exhausted on the executed cases); the implementation side is run in a forked child and reports `err exit 255`
+        return ("partial", '  | "%s", [%s] => some (Driver.fmtP ((%s).map fun res => %s))' % (
+            info.lean_name, ", ".join(pats), call, " ++ ".join(outs)))
     return '  | "%s", [%s] => let res := %s; some (%s)' % (info.lean_name, ", ".join(pats), call, " ++ ".join(outs))
 
 
@@ -183,7 +197,7 @@ def cpp_fn_pointer_type(fty):
     return "%s (*)%s" % (ret, params)
 
 
-def cpp_dispatch_entry(info, vregs=None):
+def cpp_dispatch_entry(info, vregs=None, ext=False):
     d = info.decl
     cls = d.get("_class")
     if cls not in CPP_CLASS:
@@ -226,6 +240,9 @@ def cpp_dispatch_entry(info, vregs=None):
             call_args.append(v)
         elif c == "u32":
             lines.append("    uint32_t %s = (uint32_t)A.w();" % v)
+            call_args.append(v)
+        elif c == "int" and ext:
+            lines.append("    int %s = (int)(int64_t)A.w();" % v)
             call_args.append(v)
         elif c in VR and vregs == 3:
             # three planar registers, passed as 3 * lanes words; the array lives in a (guarded) buffer
@@ -333,7 +350,18 @@ def main():
         status["globals"] = [g[0] for g in gl]
     except Exception as e:
         status["globals_error"] = str(e)
-    lean_arms, cpp_arms, lean_long_arms = [], [], []
+    lean_arms, cpp_arms, lean_long_arms, lean_partial_arms = [], [], [], []
+    # implementation-side dispatchers of functions that can no longer be TRANSLATED: the C++ arm depends on the signature
+    # only, so the arm recorded on the last fully translated tree (tools/dispatch_ref.json) is reused when the C++ function
+    # type is unchanged; the failing-input search can then still execute the function (implementation vs oracle)
+    ref_path = os.path.join(HERE, "dispatch_ref.json")
+    try:
+        disp_ref = json.load(open(ref_path))
+    except Exception:
+        disp_ref = {}
+    new_ref = {}
+    failed_roots = []
+    partial_imports = []
     dispatch_imports = []
     import copy
     reg_fns, reg_consts = {}, {}
@@ -342,6 +370,7 @@ def main():
         st = {"ok": True, "errors": [], "functions": 0}
         tr = Translator(ast, m["ns"])
         tr.unroll_max = m.get("unroll_max", tr_cxx.UNROLL_MAX)
+        tr.ext = bool(m.get("ext"))
         tr.prior_fns = reg_fns
         tr.prior_consts = reg_consts
         tr.globals = glob_map
@@ -384,6 +413,10 @@ def main():
                 except Unsupported as e:
                     st["ok"] = False
                     st["errors"].append("%s::%s %s: %s" % (cls, fname, d["type"]["qualType"], e))
+                    try:
+                        failed_roots.append((name, tr.fn_lean_name(d), d["type"]["qualType"]))
+                    except Exception:
+                        pass
                 except Exception as e:
                     st["ok"] = False
                     st["errors"].append("%s::%s: internal %s" % (cls, fname, traceback.format_exc(limit=3)))
@@ -408,22 +441,50 @@ def main():
             st["sigs"] = sg
         text = tr.emit(m["imports"])
         write_if_changed(os.path.join(GEN_DIR, name + ".lean"), text)
+        if m.get("ext"):
+            st["partial"] = [i.lean_name for i in tr.order if i.partial]
         if m.get("dispatch", True):
-            dispatch_imports.append("GoldilocksVerif.Gen." + name)
+            (partial_imports if m.get("ext") else dispatch_imports).append("GoldilocksVerif.Gen." + name)
             for info in tr.order:
                 if m.get("dispatch_filter") and not m["dispatch_filter"](info):
                     continue
                 if getattr(info, "alias", None):
                     continue
-                la = lean_dispatch_entry(info, m["ns"], m.get("vregion_regs"))
-                ca = cpp_dispatch_entry(info, m.get("vregion_regs")) if la else None
+                la = lean_dispatch_entry(info, m["ns"], m.get("vregion_regs"), bool(m.get("ext")))
+                ca = cpp_dispatch_entry(info, m.get("vregion_regs"), bool(m.get("ext"))) if la else None
                 if la and ca:
+                    new_ref[info.lean_name] = {"module": name, "fty": info.decl["type"]["qualType"], "arm": ca,
+                                               "sig": (st.get("sigs") or {}).get(info.lean_name)}
+                    if m.get("ext"):
+                        # entries of the extended-translator modules live in Driver/GenDispatchP.lean (own compilation unit)
+                        if isinstance(la, tuple) and la[0] == "partial":
+                            lean_partial_arms.append(la[1])
+                        elif isinstance(la, tuple):
+                            la = None
+                        else:
+                            lean_partial_arms.append(la.replace("let res := ", "some (Driver.fmtP (some (let res := ", 1)
+                                                     .replace("; some (", "; ", 1) + "))")
+                        if la:
+                            cpp_arms.append(ca)
+                        continue
                     if isinstance(la, tuple):
                         lean_long_arms.append(la[1])
                     else:
                         lean_arms.append(la)
                     cpp_arms.append(ca)
         status["modules"][name] = st
+    for modname, lname, fty in failed_roots:
+        r = disp_ref.get(lname)
+        mst = status["modules"].get(modname, {})
+        if r and r.get("fty") == fty and r.get("module") == modname:
+            cpp_arms.append(r["arm"])
+            mst.setdefault("untranslated", []).append(lname)
+            if r.get("sig") and isinstance(mst.get("sigs"), dict):
+                sg = dict(r["sig"]); sg["untranslated"] = True
+                mst["sigs"][lname] = sg
+    if all(v.get("ok") for v in status["modules"].values()) and REPO_IS_DEFAULT:
+        # reference of the fully translated tree (committed; only ever rewritten from /repo itself)
+        write_if_changed(ref_path, json.dumps(new_ref, indent=0, sort_keys=True))
     # dispatchers
     dl = ["-- GENERATED by tools/gen.py. Do not edit.", "import Driver.Proto"]
     dl += ["import " + i for i in dispatch_imports]
@@ -439,6 +500,20 @@ def main():
     dl += lean_arms
     dl += ["  | _, _ => none", "", "end Driver", ""]
     write_if_changed(os.path.join(DRV_DIR, "GenDispatch.lean"), "\n".join(dl))
+    # functions of the extended-translator modules (partial: fuel / Option; total ones too)
+    pl = ["-- GENERATED by tools/gen.py. Do not edit.", "import Driver.Proto"]
+    pl += ["import " + i for i in partial_imports]
+    pl += ["open GoldilocksVerif", "namespace Driver", "",
+           "/-- fuel given to every fuel-bounded loop of a partial generated function when it is executed -/",
+           "def genFuel : Nat := 1099511627776", "",
+           "def fmtP : Option (List (BitVec 64)) → String",
+           "  | none => \"err exit 255\"",
+           "  | some ws => if ws.isEmpty then \"ok\" else \"ok \" ++ fmtWords ws", "",
+           "def genDispatchP (fn : String) (args : List Arg) : Option String :=",
+           "  match fn, args with"]
+    pl += lean_partial_arms
+    pl += ["  | _, _ => none", "", "end Driver", ""]
+    write_if_changed(os.path.join(DRV_DIR, "GenDispatchP.lean"), "\n".join(pl))
     cl = ["// GENERATED by tools/gen.py. Do not edit.",
           "static bool gen_dispatch(const std::string &fn, Args &A) {"]
     cl += cpp_arms
